@@ -1257,6 +1257,8 @@ class Engine:
                 if r:
                     return True
             return False
+        if 'BaseException' in names:
+            return True  # everything that can be raised is a BaseException (bare `except:` included)
         conds = [self.isinst_pred(exc.term, n) for n in names]
         return z3.Or(*conds) if len(conds) > 1 else conds[0]
 
